@@ -236,6 +236,52 @@ def run(ctx):
             if data != want:
                 s2.violate({"src": src, "q.tbl": qt}, want.hex(), data.hex() if data is not None else (r.get("exc") or r.get("error")),
                            ".text with escaped quotes: bytes / following label differ from the table encoding of the quoted text")
+        # runs of .text directives directly after one another under tables with multi-character entries: each directive
+        # is encoded on its own (an entry or a [0xNN] escape never matches across the junction of two directives)
+        for i in range(16 if tier == "quick" else 200):
+            ftext, entries = gen_table(rng, "general" if i % 2 else "prefixfree")
+            if any(t == "BAD" for t, _, _ in entries):
+                continue
+            multi = [t for t, _, _ in entries if len(t) >= 2 and "'" not in t and "\\" not in t and "\n" not in t]
+            with open(os.path.join(tmp, "m.tbl"), "w", encoding="utf-8") as fh:
+                fh.write(ftext)
+            try:
+                tm = Table(os.path.join(tmp, "m.tbl"))
+            except Exception:  # noqa: BLE001
+                continue
+            strs = []
+            for _ in range(rng.randrange(2, 5)):
+                if multi and rng.random() < 0.7:
+                    # split a multi-character entry between two directives
+                    t = rng.choice(multi)
+                    k = rng.randrange(1, len(t))
+                    strs += [t[:k], t[k:]]
+                elif rng.random() < 0.3:
+                    strs += ["[0x", "41]"] if rng.random() < 0.5 else ["[0x4", "1]"]
+                else:
+                    strs.append(gen_string(rng, entries).replace("'", "").replace("\\", "").replace("\n", ""))
+            strs = [x for x in strs if x.strip(" ") == x or True]
+            with_labels = rng.random() < 0.25
+            src = "*=0x008000\n.table 'm.tbl'\n" + "".join(f".text '{x}'\n" + (f"l_mid{k}:\n" if with_labels else "") for k, x in enumerate(strs)) + "l_end:\n.dw l_end\n"
+            try:
+                exp = b"".join(tm.to_bytes(x) for x in strs)
+            except Exception:  # noqa: BLE001
+                continue
+            spec = drv.ask([f"spec.tblenc {';'.join(hx(t) + '=' + (c.hex() or '-') for t, c, _ in entries) or '-'} {hx(x)}" for x in strs])
+            if all(sp.startswith("some") for sp in spec):
+                exp_spec = b"".join(bytes.fromhex(sp[5:]) if len(sp) > 5 and sp[5:] != "-" else b"" for sp in spec)
+            else:
+                exp_spec = None
+            r = impl.assemble(src, cwd=tmp)
+            s2.cases += 1
+            s2.count("consecutive-text")
+            s2.nontrivial.add(("consecutive", len(strs), bool(multi)))
+            data = b"".join(b for _, b in r["blocks"]) if r["status"] == "ok" else None
+            want = (exp_spec if exp_spec is not None else exp)
+            want2 = want + (0x8000 + len(want)).to_bytes(2, "little")
+            if data != want2:
+                s2.violate({"src": src, "m.tbl": ftext}, want2.hex(), data.hex() if data is not None else (r.get("exc") or r.get("error")),
+                           "consecutive .text directives: each must emit the longest-match codes of its own string and occupy exactly those bytes")
         s2.sample({"shape": ".table a / .text / { .text } / { .table b / .text } / .text"})
         return [s, s2]
     finally:
